@@ -76,8 +76,11 @@ type hspec struct {
 	id       int
 	scope    string // "ALL" or a message type
 	refuseAt int    // refuse on the k-th invocation (0 = never)
-	phase    int    // 0 = registered on the handler before the session exists, 1 = before Session.Run, 2 = after Session.Run
+	phase    int    // 0 = registered on the handler before the session exists, 1 = before Session.Run, 2 = after Session.Run, 3 = during traffic
 	calls    int
+	late     bool // phase 3: registered by a step of the scenario; inactive until then
+	active   bool
+	order    int // activation order among late handlers
 }
 
 func (h *hspec) decide() bool {
@@ -107,7 +110,7 @@ func (s *scen) String() string {
 
 func main() {
 	c := vk.Init("C19")
-	c.Rule("scenario i: PRNG draws 0..5 outgoing handlers (for ALL types and for the types Y/0/3, registered before the session exists, before Session.Run or after it, each refusing on its k-th invocation or never), 0..5 incoming handlers (ALL, 1, V), 0..4 EventLogon handlers, an instrumented message store failing on the k-th Save or never, and 8..24 steps (application Send through the session, application Send through the handler with its own header and a sequence number used before or 0, lowering the outgoing counter and sending again, inbound TestRequest -> Heartbeat reply, inbound damaged message -> Reject, inbound application message); everything appends to one call log. Oracle per step: the handler chain equals the registration-order prefix up to the first refusal (ALL handlers before type handlers, the session's own Save at its registration position), a message is on Outgoing() iff the chain completed, it was saved successfully under its own 34 before, Send returned an error iff it was not transmitted, the bytes each outgoing handler could serialize equal the wire bytes; inbound ALL/type handler order likewise. distinct = scenario text; non-trivial = at least one refusal or failed save happened")
+	c.Rule("scenario i: PRNG draws 0..5 outgoing handlers (for ALL types and for the types Y/0/3, registered before the session exists, before Session.Run or after it, each refusing on its k-th invocation or never), 0..5 incoming handlers (ALL, 1, V), up to 2 handlers registered while traffic is flowing (after their message types have been seen), 0..4 EventLogon handlers, an instrumented message store failing on the k-th Save or never, and 8..24 steps (application Send through the session, application Send through the handler with its own header and a sequence number used before or 0, lowering the outgoing counter and sending again, inbound TestRequest -> Heartbeat reply, inbound damaged message -> Reject, inbound application message); everything appends to one call log. Oracle per step: the handler chain equals the registration-order prefix up to the first refusal (ALL handlers before type handlers, the session's own Save at its registration position), a message is on Outgoing() iff the chain completed, it was saved successfully under its own 34 before, Send returned an error iff it was not transmitted, the bytes each outgoing handler could serialize equal the wire bytes; inbound ALL/type handler order likewise. distinct = scenario text; non-trivial = at least one refusal or failed save happened")
 	c.Assume("what happens to type handlers after an incoming ALL-handler refusal is not judged (the statement does not say); steps where that happened do not judge whether a reply was due")
 	n := c.Pick(4000, 60000)
 	vk.Parallel(n, runtime.NumCPU(), func(i int) {
@@ -149,6 +152,25 @@ func main() {
 		nsteps := 8 + r.Intn(17)
 		for k := 0; k < nsteps; k++ {
 			sc.steps = append(sc.steps, []string{"send", "send", "testreq", "damaged", "app", "handler-send-reused-seqnum", "counter-lowered-then-send"}[r.Intn(7)])
+		}
+		// handlers registered while traffic is flowing (after message types have already been seen)
+		for k := 0; k < r.Intn(3); k++ {
+			id++
+			h := &hspec{id: id, scope: []string{"ALL", "ALL", "Y", "0"}[r.Intn(4)], phase: 3, late: true}
+			if r.Intn(2) == 0 {
+				h.refuseAt = 1 + r.Intn(3)
+			}
+			pos := 2 + r.Intn(len(sc.steps)-2)
+			if r.Intn(2) == 0 {
+				sc.out = append(sc.out, h)
+				sc.steps = append(sc.steps[:pos], append([]string{fmt.Sprintf("register-out:%d", h.id)}, sc.steps[pos:]...)...)
+			} else {
+				if h.scope == "Y" || h.scope == "0" {
+					h.scope = "1"
+				}
+				sc.in = append(sc.in, h)
+				sc.steps = append(sc.steps[:pos], append([]string{fmt.Sprintf("register-in:%d", h.id)}, sc.steps[pos:]...)...)
+			}
 		}
 		runScenario(c, sc, i)
 	})
@@ -229,6 +251,16 @@ func runScenario(c *vk.Ctx, sc *scen, idx int) {
 	defer rg.Close()
 	p := rig.NewPeer()
 	refusals := 0
+	lateOrder := 0
+	lateSorted := func(hs []*hspec) []*hspec {
+		out := append([]*hspec(nil), hs...)
+		for i := 1; i < len(out); i++ {
+			for j := i; j > 0 && out[j].order < out[j-1].order; j-- {
+				out[j], out[j-1] = out[j-1], out[j]
+			}
+		}
+		return out
+	}
 
 	// expected outgoing chain for a message type, in registration order
 	type link struct {
@@ -248,11 +280,21 @@ func runScenario(c *vk.Ctx, sc *scen, idx int) {
 				}
 			}
 		}
+		for _, hs := range lateSorted(sc.out) {
+			if hs.late && hs.active && hs.scope == "ALL" {
+				ch = append(ch, link{h: hs})
+			}
+		}
 		for ph := 0; ph < maxPhase; ph++ {
 			for _, hs := range sc.out {
 				if hs.phase == ph && hs.scope == typ {
 					ch = append(ch, link{h: hs})
 				}
+			}
+		}
+		for _, hs := range lateSorted(sc.out) {
+			if hs.late && hs.active && hs.scope == typ {
+				ch = append(ch, link{h: hs})
 			}
 		}
 		return ch
@@ -365,8 +407,18 @@ func runScenario(c *vk.Ctx, sc *scen, idx int) {
 				}
 			}
 		}
+		for _, hs := range lateSorted(sc.in) {
+			if hs.late && hs.active && hs.scope == "ALL" {
+				expAll = append(expAll, hs)
+			}
+		}
 		for _, hs := range sc.in {
-			if hs.scope == typ {
+			if hs.scope == typ && !hs.late {
+				expType = append(expType, hs)
+			}
+		}
+		for _, hs := range lateSorted(sc.in) {
+			if hs.scope == typ && hs.late && hs.active {
 				expType = append(expType, hs)
 			}
 		}
@@ -464,6 +516,60 @@ func runScenario(c *vk.Ctx, sc *scen, idx int) {
 	for k, stp := range sc.steps {
 		name := fmt.Sprintf("#%d:%s", k, stp)
 		m := lg.mark()
+		if strings.HasPrefix(stp, "register-") {
+			var hid int
+			kind := "out"
+			if strings.HasPrefix(stp, "register-in:") {
+				kind = "in"
+				fmt.Sscanf(stp, "register-in:%d", &hid)
+			} else {
+				fmt.Sscanf(stp, "register-out:%d", &hid)
+			}
+			list := sc.out
+			if kind == "in" {
+				list = sc.in
+			}
+			for _, hs := range list {
+				if hs.id != hid {
+					continue
+				}
+				hs := hs
+				scope := hs.scope
+				if scope == "ALL" {
+					scope = simplefixgo.AllMsgTypes
+				}
+				if kind == "out" {
+					rg.H.HandleOutgoing(scope, func(msg simplefixgo.SendingMessage) bool {
+						b, _ := msg.ToBytes()
+						k := "out-type"
+						if hs.scope == "ALL" {
+							k = "out-all"
+						}
+						ok := hs.decide()
+						lg.add(entry{kind: k, id: hs.id, ok: ok, data: append([]byte(nil), b...), typ: msg.MsgType()})
+						return ok
+					})
+				} else {
+					rg.H.HandleIncoming(scope, func(data []byte) bool {
+						if rig.IsSentinel(data) {
+							return true
+						}
+						k := "in-type"
+						if hs.scope == "ALL" {
+							k = "in-all"
+						}
+						ok := hs.decide()
+						lg.add(entry{kind: k, id: hs.id, ok: ok, data: append([]byte(nil), data...)})
+						return ok
+					})
+				}
+				hs.active = true
+				lateOrder++
+				hs.order = lateOrder
+				c.Count("handlers_registered_during_traffic", 1)
+			}
+			continue
+		}
 		switch stp {
 		case "send":
 			msg := fixgen.CreateMarketDataRequestReject("c19-" + strconv.Itoa(k))
